@@ -845,3 +845,81 @@ pub fn visit_all<Vz: Visitor>(v: &mut Vz) {
         );
     }
 }
+
+// ---------------------------------------------------------------------------------------------
+// single entries by type, and FlatStack configurations
+
+/// The catalogue entry of composition `S`.
+pub fn entry_of<S: Spec>() -> Entry<S> {
+    struct Grab<S: Spec>(Option<Entry<S>>);
+    impl<S: Spec> Visitor for Grab<S> {
+        fn visit<S2: Spec>(&mut self, e: Entry<S2>) {
+            let b: Box<dyn std::any::Any> = Box::new(e);
+            if let Ok(x) = b.downcast::<Entry<S>>() {
+                self.0 = Some(*x);
+            }
+        }
+    }
+    let mut g = Grab::<S>(None);
+    visit_all(&mut g);
+    g.0.unwrap_or_else(|| panic!("{} is not in the catalogue", S::name()))
+}
+
+use crate::m_stack::StackCaps;
+
+pub trait StackVisitor {
+    fn visit<S: Spec, C: flatcontainer::impls::index::IndexContainer<Idx<S>> + 'static>(&mut self, e: Entry<S>, caps: StackCaps<S, C>);
+}
+
+pub fn visit_stacks<Vz: StackVisitor>(v: &mut Vz) {
+    macro_rules! full {
+        ($S:ty, $C:ty, $cname:expr, $cb:expr) => {
+            StackCaps::<$S, $C>::new($cname, $cb).owned().by_ref().debug().cloneable().serde()
+        };
+    }
+    type Pair = (usize, usize);
+    {
+        let mut c = full!(Str<Owned<u8>>, Vec<Pair>, "Vec<Index>", 1);
+        c.exact_size = true;
+        v.visit(entry_of::<Str<Owned<u8>>>(), c);
+    }
+    // the indices of a MirrorRegion<usize> are the copied values: arbitrary usize sequences
+    // reach the index containers through the public FlatStack API
+    let idx_vals: Vec<usize> = vec![0, 3, 6, 1, u32::MAX as usize, u32::MAX as usize + 1, 1 << 63, usize::MAX];
+    {
+        let mut e = entry_of::<Mirror<usize>>();
+        e.values = idx_vals.clone();
+        v.visit(e.clone(), full!(Mirror<usize>, Vec<usize>, "Vec<Index>", 1));
+        v.visit(e.clone(), full!(Mirror<usize>, IO, "IndexOptimized", 2));
+        v.visit(e, full!(Mirror<usize>, IL, "IndexList", 2));
+    }
+    v.visit(entry_of::<Consec<Str<Owned<u8>>, IO>>(), full!(Consec<Str<Owned<u8>>, IO>, IO, "IndexOptimized", 2).free_indices());
+    v.visit(entry_of::<Consec<Str<Owned<u8>>, IO>>(), full!(Consec<Str<Owned<u8>>, IO>, VU, "Vec<Index>", 1));
+    v.visit(entry_of::<Consec<Str<Owned<u8>>, IO>>(), full!(Consec<Str<Owned<u8>>, IO>, IL, "IndexList", 2));
+    v.visit(
+        entry_of::<Cols<Consec<Str<Owned<u8>>, IO>, IO>>(),
+        full!(Cols<Consec<Str<Owned<u8>>, IO>, IO>, IO, "IndexOptimized", 2).free_indices(),
+    );
+    v.visit(entry_of::<Cols<Mirror<u8>, IO>>(), full!(Cols<Mirror<u8>, IO>, IO, "IndexOptimized", 2).free_indices());
+    v.visit(entry_of::<VecRegion<String>>(), full!(VecRegion<String>, IO, "IndexOptimized", 2).free_indices());
+    v.visit(
+        entry_of::<Consec<Owned<()>, IO>>(),
+        StackCaps::<Consec<Owned<()>, IO>, IO>::new("IndexOptimized", 2).owned().by_ref().cloneable().free_indices(),
+    );
+    v.visit(entry_of::<Slice<Mirror<u8>, Vec<u8>>>(), full!(Slice<Mirror<u8>, Vec<u8>>, Vec<Pair>, "Vec<Index>", 1));
+    v.visit(
+        entry_of::<Slice<Str<Owned<u8>>, Vec<Pair>>>(),
+        full!(Slice<Str<Owned<u8>>, Vec<Pair>>, Vec<Pair>, "Vec<Index>", 1),
+    );
+    v.visit(entry_of::<Collapse<Str<Owned<u8>>>>(), full!(Collapse<Str<Owned<u8>>>, Vec<Pair>, "Vec<Index>", 1));
+    v.visit(entry_of::<Opt<Str<Owned<u8>>>>(), full!(Opt<Str<Owned<u8>>>, Vec<Option<Pair>>, "Vec<Index>", 1));
+    v.visit(
+        entry_of::<Res<Str<Owned<u8>>, Mirror<u16>>>(),
+        full!(Res<Str<Owned<u8>>, Mirror<u16>>, Vec<Result<Pair, u16>>, "Vec<Index>", 1),
+    );
+    v.visit(
+        entry_of::<Tup2<Mirror<u64>, Str<Owned<u8>>>>(),
+        full!(Tup2<Mirror<u64>, Str<Owned<u8>>>, Vec<(u64, Pair)>, "Vec<Index>", 1),
+    );
+    v.visit(entry_of::<Huff<u8>>(), StackCaps::<Huff<u8>, Vec<Pair>>::new("Vec<Index>", 1).owned().by_ref().debug().cloneable());
+}
